@@ -5,8 +5,8 @@ META = {
     "property_id": "C47",
     "level": "model_checking",
     "technique": "TLA+ spec of range-based state reconstruction from untrusted peers (SnapSync.tla) model-checked with TLC; real snap/1 and snap/2 syncers run against harness peers (honest answers from the real Service*Query, seeded misbehaviour per request) with every database write observed; recorded runs validated by SnapSyncTrace.tla",
-    "text": "SnapSync.tla models range tasks, requests, peer answers of any kind (genuine full/truncated range, corrupted proof or data, refusal, no or late answer), acceptance only of verifying ranges, flushes, restarts from persisted progress and completion; TLC checks for all interleavings that nothing unverified is stored, progress never passes unverified keys, and completion implies the stored state equals the target. The real syncers (NewV1Syncer, NewV2Syncer; hash and path scheme) sync random targets from 2-5 harness peers whose honest answers are produced by the real serving functions over a source chain and whose misbehaviour per request follows a seeded policy (capped, late, dropped, corrupted proof, corrupted data, refusal); syncs are cancelled at random points and resumed by a fresh syncer on the same database. A wrapping ethdb checks every flat account, slot and code write against the target at write time; each request, response (with the oracle's genuineness verdict), write, restart and completion is recorded and TLC checks that every write is covered by an earlier genuine response and that on completion the stored items are exactly the target; finally flat state, codes and the fully iterated trie are compared with the target.",
-    "note": "Sound core: pivot moves (snap/1 healing onto a new root, snap/2 BAL catch-up) are NOT exercised - targets are genesis states of a static source chain; late genuine responses count as verified in the trace spec (the syncer ignores them); trie nodes written during range reconstruction are only checked for hash/key consistency (boundary nodes are healed later) and by the final full-trie comparison; request timeout ceiling lowered through an export hook.",
+    "text": "SnapSync.tla models range tasks, requests, peer answers of any kind (genuine full/truncated range, corrupted proof or data, refusal, no or late answer), acceptance only of verifying ranges, flushes, restarts from persisted progress and completion; TLC checks for all interleavings that nothing unverified is stored, progress never passes unverified keys, and completion implies the stored state equals the target. The real syncers (NewV1Syncer, NewV2Syncer; hash and path scheme) sync random targets from 2-5 harness peers whose honest answers are produced by the real serving functions over a source chain and whose misbehaviour per request follows a seeded policy (capped, late, dropped, corrupted proof, corrupted data, refusal); syncs are cancelled at random points and resumed by a fresh syncer on the same database; additional snap/1 runs move the pivot to a later block of a source chain whose blocks create accounts and write/delete storage. A wrapping ethdb checks every flat account, slot and code write against the target at write time; each request, response (with the oracle's genuineness verdict), write, restart and completion is recorded and TLC checks that every write is covered by an earlier genuine response and that on completion the stored items are exactly the target; finally flat state, codes and the fully iterated trie are compared with the target.",
+    "note": "Left out: snap/2 pivot moves (BAL catch-up) are NOT exercised; snap/1 pivot moves are (sync against an early header, cancel, resume against a later header of a source chain with state-changing blocks), but there only write values and the final full trie are checked (snap/1 does not promise a consistent flat state after a pivot move) and no per-item events go to TLC; late genuine responses count as verified in the trace spec (the syncer ignores them); trie nodes written during range reconstruction are only checked for hash/key consistency (boundary nodes are healed later) and by the final full-trie comparison; request timeout ceiling lowered through an export hook.",
     "design_ref": "3.7 C47",
 }
 
@@ -16,11 +16,11 @@ def run(ctx):
     drv = ctx.build("c47")
     ctx.model_check("net/MCSnapSync", "net/MCSnapSync", timeout=T, name="MCSnapSync", workers=4, coverage=ctx.thorough)
     tp = os.path.join(ctx.scratch, "trace.ndjson")
-    s, _ = ctx.drive(drv, ["-mode", "record", "-trace", tp, "-n", ctx.pick(8, 60), "-accounts", ctx.pick(60, 150), "-versions", "12"],
+    s, _ = ctx.drive(drv, ["-mode", "record", "-trace", tp, "-n", ctx.pick(8, 60), "-accounts", ctx.pick(60, 150), "-versions", "12", "-pivot", ctx.pick(3, 20)],
                      name="c47-record", timeout=2 * T)
     ok, consumed, total, r = ctx.validate("net/SnapSyncTrace", tp, ntraces=s["traces"], timeout=2 * T)
     if not ok:
         ctx.reject_trace("net/SnapSyncTrace", tp, consumed, r)
     return ctx.finish(rule="MC: 2 spaces (4 accounts in 2 tasks, 3 slots), 2 hash items, 2 peers with any behaviour, restarts; V: seeded sync runs of snap/1 and snap/2 on both state schemes against misbehaving peers with cancel/resume",
-                      assumptions=["static pivot (no pivot move, no BAL catch-up)", "at least one peer able to make progress in every run",
+                      assumptions=["no snap/2 BAL catch-up; snap/1 pivot move checked on the final trie only", "at least one peer able to make progress in every run",
                                    "request timeout ceiling lowered to 3 s via export hook"])
